@@ -45,6 +45,7 @@ type FnContract struct {
 	Nullable   []string // pointer params that may be nil
 	Fresh      bool     // results are freshly allocated
 	MayPanic   bool
+	Records    []string // ghost (error, counter) updated at every call site: `records api.err api.calls`
 	File       string
 	Line       int
 }
@@ -76,7 +77,7 @@ type ContractSet struct {
 var clauseKw = map[string]bool{"func": true, "requires": true, "ensures": true, "loop": true, "calls": true,
 	"tags": true, "safety": true, "boundary": true, "modifies": true, "trusted": true, "pure": true,
 	"bounded": true, "lemma": true, "import": true, "inline": true, "nobody": true, "nullable": true,
-	"fresh": true, "maypanic": true, "end": true, "macro": true, "assumes": true, "implements": true}
+	"fresh": true, "maypanic": true, "records": true, "end": true, "macro": true, "assumes": true, "implements": true}
 
 var reTagList = regexp.MustCompile(`^\[([A-Za-z0-9, ]+)\]\s*`)
 var reAtName = regexp.MustCompile(`^@([A-Za-z0-9_.\-]+)\s*`)
@@ -264,6 +265,11 @@ func (cs *ContractSet) ParseContractFile(path, pkgPath string) error {
 				cur.Fresh = true
 			case "maypanic":
 				cur.MayPanic = true
+			case "records":
+				cur.Records = strings.Fields(rest)
+				if len(cur.Records) != 2 {
+					return fail("records <error ghost> <counter ghost>")
+				}
 			case "bounded":
 				cur.Bounded = rest
 			case "end":
